@@ -7,6 +7,7 @@
   correspondence only - compile of all generated sources.)
 -/
 import ProphyModel.Accept
+import ProphyModel.Lemmas.WFAccept
 namespace Prophy.C12
 open Prophy Prophy.Accept
 
@@ -66,5 +67,15 @@ theorem C12_enumerator_out_of_range_rejected (n a : String) (v : Nat) (h : 2 ^ 3
     front (.enum n [(a, v)]) = false := by
   have : ¬ v < 4294967296 := by omega
   simp [front, this]
+
+/-- a schema that the prophy front-end accepts and whose generated module the Python runtime
+    imports satisfies every composability rule the codec theorems (C01, C19) assume -/
+theorem C12_accepted_is_wellformed (t : Ty) (hf : front t = true) (hp : pyRt t = true) : WF.wfTy t = true :=
+  Accept.wf_of_accept t hf hp
+
+/-- the Python runtime never accepts a dynamic type where a fixed one is required: what it lets
+    through as optional / fixed / limited element / union arm has one size on the wire -/
+theorem C12_runtime_fixed (t : Ty) (hp : pyRt t = true) (hd : (Py.stTy t).dyn = false) : Spec.fixedTy t = true :=
+  Accept.fixed_of_pyRt t hp hd
 
 end Prophy.C12
